@@ -295,6 +295,10 @@ class StdStr:
     def copy_value(self):
         return StdStr(self.b)
 
+    @property
+    def items(self):
+        return [conv(x, "char") for x in self.b]       # range-for over a string visits its chars
+
     def assign_from(self, o):
         self.b = StdStr.of(o).b
 
@@ -518,6 +522,11 @@ def vector_hooks():
         out["method:" + name] = (lambda name: (lambda ev, o, a: o.cxx(name, ev, a) if isinstance(o, StdStr) else (_ for _ in ()).throw(Broken("%s on an object that is not a string" % name))))(name)
     out["ctor:std::basic_string<*"] = lambda ev, o, a: StdStr.construct(a)
     out["ctor:std::allocator<*"] = lambda ev, o, a: Sym.of("allocator")
+    out["ctor:std::basic_stringstream<*"] = lambda ev, o, a: OStream()
+    out["ctor:std::basic_ostringstream<*"] = lambda ev, o, a: OStream()
+    out["method:str"] = lambda ev, o, a: StdStr(o.text().encode("latin-1")) if isinstance(o, OStream) else (_ for _ in ()).throw(Broken("str() on an unmodelled object"))
+    out["method:what"] = lambda ev, o, a: Ptr([ord(c) & 0xff for c in (o[1] if isinstance(o, tuple) else "error")] + [0], 0)
+    out["ctor:std::runtime_error"] = lambda ev, o, a: ("exception", a[0].b.decode("latin-1") if isinstance(a[0], StdStr) else (a[0].cstr() if isinstance(a[0], Ptr) else "error"))
     out["std::operator+<char*"] = lambda ev, o, a: StdStr.of(a[0]).arith("+", a[1])
     out["std::to_string"] = lambda ev, o, a: StdStr(str(int(a[0])).encode())
     return out
